@@ -129,9 +129,35 @@ def c131(ctx):
                   "a transaction is written with %d write_all calls" % len(wr))
 
 
+def c132_name_stays(ctx):
+    R = "C13.2"
+    # the lock is taken on an inode, exclusion is meant per path: the name must keep referring to the locked inode for as long as anybody can
+    # be queued on it, so nothing ever unlinks or renames the lock file (a waiter that wakes up holding an unlinked inode excludes nobody)
+    bad = []
+    n = 0
+    for f in sorted(ctx.prog.fns.values(), key=lambda f: f.key):
+        if f.crate == "utilz" and f.skey.startswith("utilz::lockfile::"):
+            n += 1
+            for pt in P.call_points(f, r"^std::fs::(remove_file|rename|remove_dir|remove_dir_all)$|^libc::(unlink|unlinkat|rename|renameat)$"):
+                bad.append((f, pt, "utilz::lockfile"))
+        if f.crate in ("mani", "lsmtk"):
+            for pt in P.call_points(f, r"^std::fs::(remove_file|rename|remove_dir_all)$"):
+                t = P.term_at(f, pt)
+                if any(c.endswith("mani::LOCKFILE") for a in t["args"] for c in P.origin_calls(f, a)):
+                    bad.append((f, pt, "LOCKFILE(root)"))
+    ctx.floor(R, "lock file functions", n, 4)
+    if not bad:
+        ctx.ok(R, "utilz::lockfile", "nothing unlinks or renames a lock file")
+    for f, pt, what in bad:
+        ctx.check(R, f, "lock-file-name-stays", False, "",
+                  "%s removes or renames a lock file (%s): an opener already queued on the old inode wakes up holding a lock nobody else can see, and the "
+                  "next opener creates and locks a fresh file -- two live handles on one manifest" % (f.skey, what), pt=pt)
+
+
 def c132(ctx):
     R = "C13.2"
     ctx.declare(R, "the manifest directory is locked before it is read and stays locked for the life of the handle")
+    c132_name_stays(ctx)
     f = ctx.fn(R, M + "open")
     if f:
         lk = ctx.calls(R, f, r"utilz::lockfile::Lockfile::(lock|wait)$", floor=2)
